@@ -48,11 +48,12 @@ func genSpec(r rng, flavor string, withCb bool) cacheSpec {
 }
 
 type smallGen struct {
-	r       rng
-	nkeys   int
-	exotic  bool
-	nextID  int64
-	profile string // "ttl" (C01), "expiry" (C09), "callback" (C06), "range" (C07), "count" (C08)
+	r            rng
+	nkeys        int
+	exotic       bool
+	nextID       int64
+	uncomparable bool   // twin mode: also slices, maps and signed zeros as values
+	profile      string // "ttl" (C01), "expiry" (C09), "callback" (C06), "range" (C07), "count" (C08)
 }
 
 func (g *smallGen) ttl() time.Duration {
@@ -80,6 +81,9 @@ func (g *smallGen) ttl() time.Duration {
 
 func (g *smallGen) value(k int) any {
 	g.nextID++
+	if g.uncomparable {
+		return genValueU(k, g.nextID)
+	}
 	return genValue(g.exotic, k, g.nextID)
 }
 
@@ -192,6 +196,7 @@ func genSmallCase(r rng, profile string, mode string) *seqCase {
 	switch mode {
 	case "twin":
 		g.exotic = true
+		g.uncomparable = true
 		sp := genSpec(r, "Cache", withCb)
 		sp2 := sp
 		sp2.Flavor = "CacheOf[string,any]"
